@@ -10,3 +10,12 @@ package env
 //@ func Get
 //@   trusted
 //@   pure allocates
+
+// ---- C10: a Taskfile env entry overrides the process environment only under the env-precedence experiment ----
+//@ ghost var expOn bool scratch
+//@ ghost var osHas bool scratch
+//@ func GetFromVars
+//@   site (Experiment).Enabled#1 ghost expOn := result
+//@   site os.LookupEnv#1 requires arg0 == k                                                          [C10]
+//@   site os.LookupEnv#1 ghost osHas := result.1
+//@   site append#1 requires expOn || !osHas                                                          [C10]
